@@ -1,6 +1,7 @@
 #!/bin/bash
-# setup_cmd: offline; warms the Go build cache for the harness (plain and
-# -race) and for the frugal compiler, compiles the javac parse-only oracle.
+# setup_cmd: offline; warms the Go build cache for every check's command
+# (plain and, where used, -race), for the frugal compiler and for one harness
+# module built from emitted code; compiles the javac parse-only oracle.
 set -u
 cd "$(dirname "$0")"
 export GOFLAGS=-mod=mod GOPROXY=off GOSUMDB=off GOTOOLCHAIN=local
@@ -8,13 +9,23 @@ REPO="${VERIF_REPO:-/repo}"
 cat "$REPO/go.sum" "$REPO/lib/go/go.sum" go.sum.extra 2>/dev/null | sort -u > go.sum
 T="$(mktemp -d "${VERIF_SCRATCH:-/var/tmp}/verif-setup-XXXXXX")"
 trap 'rm -rf "$T"' EXIT
-set -e
-for d in cmd/*/; do go build -tags verif -o "$T/vrt" "./$d"; done
-for d in c01 c06 c07 c14 c15 c17 c20; do
-  if [ -d "cmd/$d" ]; then go build -race -tags verif -o "$T/vrt-race" "./cmd/$d"; fi
+fail=0
+for d in cmd/*/; do
+  n=$(basename "$d")
+  if ! go build -tags verif -o "$T/bin-$n" "./$d" > "$T/log" 2>&1; then
+    echo "setup: WARNING ./$d does not build:"; head -5 "$T/log"; fail=1
+  fi
 done
-(cd "$REPO" && go build -o "$T/frugal" .)
-if [ -f java/ParseOnly.java ]; then
-  mkdir -p java/classes && javac -d java/classes java/ParseOnly.java
+for n in c01 c06 c07 c14 c15 c17 c20; do
+  if [ -d "cmd/$n" ]; then go build -race -tags verif -o "$T/race-$n" "./cmd/$n" > "$T/log" 2>&1 || { echo "setup: WARNING -race ./cmd/$n does not build"; head -5 "$T/log"; }; fi
+done
+(cd "$REPO" && go build -o "$T/frugal" .) || fail=1
+# warm the cache for harness modules built from emitted code
+if [ -x "$T/bin-smoke" ]; then
+  VERIF_ROOT="$PWD" VERIF_SCRATCH_DIR="$T/smoke" "$T/bin-smoke" > "$T/log" 2>&1 || { echo "setup: WARNING smoke harness failed"; tail -5 "$T/log"; }
 fi
-echo "setup ok"
+if [ -f java/ParseOnly.java ]; then
+  mkdir -p java/classes && javac -d java/classes java/ParseOnly.java || echo "setup: WARNING javac oracle did not compile"
+fi
+echo "setup done (fail=$fail)"
+exit 0
